@@ -108,7 +108,8 @@ def is_var(e, x):
 # ---------------------------------------------------------------- configuration
 
 class Cfg:
-    def __init__(self, dic, rbv, entry, abort, order):
+    def __init__(self, dic, rbv, entry, abort, order, roots=None):
+        self.roots = roots      # None (= the main unit) or [names of the units with role 'driver' = seed routines of the Scheduler]
         self.dic = dic          # [(key string, int)] in insertion order (keys unique)
         self.rbv = rbv
         self.entry = entry      # None or [unit names]
@@ -118,12 +119,18 @@ class Cfg:
     def wire(self):
         return [[A('dic')] + [[k, v] for k, v in self.dic], [A('rbv'), A('true' if self.rbv else 'false')],
                 [A('entry')] + ([A('none')] if self.entry is None else [A('some')] + [A(e) for e in self.entry]),
-                [A('abort'), A(self.abort)], [A('order')] + [A(o) for o in self.order]]
+                [A('abort'), A(self.abort)], [A('order')] + [A(o) for o in self.order]] + \
+            ([] if self.roots is None else [[A('roots')] + [A(r) for r in self.roots]])
 
 
 def decode_cfg(c):
-    if not isinstance(c, list) or len(c) != 5 or [h(x) for x in c] != ['dic', 'rbv', 'entry', 'abort', 'order']:
+    if not isinstance(c, list) or len(c) not in (5, 6) or [h(x) for x in c] != ['dic', 'rbv', 'entry', 'abort', 'order', 'roots'][:len(c)]:
         raise ValueError('malformed cfg')
+    roots = None
+    if len(c) == 6:
+        roots = [str(x) for x in c[5][1:]]
+        if not roots or any(isinstance(x, list) for x in c[5][1:]) or len(set(roots)) != len(roots):
+            raise ValueError('malformed roots')
     dic = []
     for kv in c[0][1:]:
         if not isinstance(kv, list) or len(kv) != 2 or isinstance(kv[0], list):
@@ -140,7 +147,7 @@ def decode_cfg(c):
         raise ValueError('empty entry list')
     if len(c[3]) != 2 or str(c[3][1]) not in ('default', 'errorstop'):
         raise ValueError('malformed abort')
-    return Cfg(dic, str(c[1][1]) == 'true', entry, str(c[3][1]), [str(x) for x in c[4][1:]])
+    return Cfg(dic, str(c[1][1]) == 'true', entry, str(c[3][1]), [str(x) for x in c[4][1:]], roots)
 
 
 def decode(req):
@@ -168,8 +175,12 @@ def decode(req):
 
 # ---------------------------------------------------------------- mirror of the Lean propagation (LokiModel/C39/Model.lean)
 
+def roots_of(cfg, prog):
+    return [str(prog[1])] if cfg.roots is None else list(cfg.roots)
+
+
 def is_entry(cfg, prog, name):
-    return name == str(prog[1]) if cfg.entry is None else name in cfg.entry
+    return name in roots_of(cfg, prog) if cfg.entry is None else name in cfg.entry
 
 
 def lookup_ci(dic, name):
@@ -342,25 +353,25 @@ class TransformError(Exception):
         self.kind = kind
 
 
-def _scheduler(prog, d):
+def _scheduler(prog, d, roots=None):
     from loki import Scheduler, SchedulerConfig
     from loki.frontend import FP
-    main = str(prog[1])
+    roots = list(roots or [str(prog[1])])
     src = fir.emit_fortran(prog, wrap_program=False)
     (d / 'prog.F90').write_text(src)
     config = SchedulerConfig.from_dict({
         'default': {'mode': 'idem', 'role': 'kernel', 'expand': True, 'strict': True},
-        'routines': {main: {'role': 'driver', 'expand': True}}})
-    return Scheduler(paths=[d], config=config, seed_routines=[main], frontend=FP)
+        'routines': {r: {'role': 'driver', 'expand': True} for r in roots}})
+    return Scheduler(paths=[d], config=config, seed_routines=roots, frontend=FP)
 
 
-def scheduler_order(prog):
+def scheduler_order(prog, roots=None):
     """processing order of the units of `prog` under the real Scheduler (used by the generator; checked again by impl)"""
     from loki.batch import SFilter
     WORK.mkdir(exist_ok=True)
     d = Path(tempfile.mkdtemp(prefix='c39_', dir=WORK))
     try:
-        sch = _scheduler(prog, d)
+        sch = _scheduler(prog, d, roots)
         order = [it.local_name.lower() for it in SFilter(sch.sgraph)]
     finally:
         shutil.rmtree(d, ignore_errors=True)
@@ -399,6 +410,7 @@ def _export(sf, main):
 
 
 _cache = {}
+_reuse = {}     # request key -> None (not tried) / True / False: second use of the transformation object gave the same program
 
 
 def real_apply(prog, cfg):
@@ -406,6 +418,7 @@ def real_apply(prog, cfg):
     if key not in _cache:
         if len(_cache) > 400:
             _cache.clear()
+            _reuse.clear()
         try:
             _cache[key] = ('ok', _real_apply(prog, cfg))
         except (TransformError, fir.Unsupported) as e:
@@ -424,7 +437,7 @@ def _real_apply(prog, cfg):
     WORK.mkdir(exist_ok=True)
     d = Path(tempfile.mkdtemp(prefix='c39_', dir=WORK))
     try:
-        sch = _scheduler(prog, d)
+        sch = _scheduler(prog, d, cfg.roots)
         items = list(SFilter(sch.sgraph))
         order = [it.local_name.lower() for it in items]
         sf = items[0].source
@@ -456,6 +469,23 @@ def _real_apply(prog, cfg):
             raise TransformError('corrupt-declaration', str(e)[:120]) from e
         except Exception as e:      # pylint: disable=broad-except
             raise TransformError(type(e).__name__, str(e)[:120]) from e
+        reuse = None
+        if len(dumps(prog)) % 3 == 0:
+            # the SAME transformation object applied to a fresh Scheduler over the same sources must give the same result
+            # (a transformation object is routinely reused for several call trees)
+            d2 = Path(tempfile.mkdtemp(prefix='c39_', dir=WORK))
+            try:
+                sch2 = _scheduler(prog, d2, cfg.roots)
+                sf2 = list(SFilter(sch2.sgraph))[0].source
+                sch2.process(transformation=t)
+                for r in sf2.all_subroutines:
+                    _encode_guards(r)
+                reuse = dumps(_export(sf2, main)) == dumps(tp)
+            except Exception:      # pylint: disable=broad-except
+                reuse = False
+            finally:
+                shutil.rmtree(d2, ignore_errors=True)
+        _reuse[(dumps(prog), dumps(cfg.wire()))] = reuse
         return tp, (text0, text), order
     finally:
         shutil.rmtree(d, ignore_errors=True)
@@ -556,6 +586,19 @@ def expect_abort(prog, cfg, inp):
     return False
 
 
+def with_main(prog, name):
+    return [prog[0], A(name)] + list(prog[2:])
+
+
+def same_signature(prog, a, b):
+    ua, ub = unit_of(prog, a), unit_of(prog, b)
+    if ua is None or ub is None or dumps(ua[2]) != dumps(ub[2]):
+        return False
+    da = {str(d[1]): dumps(d) for d in ua[3]}
+    db = {str(d[1]): dumps(d) for d in ub[3]}
+    return all(da.get(str(x)) == db.get(str(x)) for x in ua[2])
+
+
 def rename_inputs(inp, tp, prog):
     """inputs of the transformed main unit: the dummy `x` of the original is `parametrised_x` now"""
     targs = [str(a) for a in unit_of(tp, str(tp[1]))[2]]
@@ -603,7 +646,7 @@ def _decl(name, ty='int', intent='none', dims=(), param=None):
     return [A('decl'), A(name), A(ty), A(intent), [list(b) for b in dims], fir.NONE if param is None else param]
 
 
-def gen_spec(rng, name, is_main):
+def gen_spec(rng, name, is_main, force_flag=None):
     s = Spec()
     s.name = name
     if is_main:
@@ -612,6 +655,8 @@ def gen_spec(rng, name, is_main):
     else:
         s.sizes = [rng.choice(SIZE_POOL)] + ([rng.choice(SIZE2_POOL)] if rng.random() < 0.5 else [])
         s.flags = rng.sample(FLAG_POOL, rng.choice((0, 1, 1, 2)))
+        if force_flag is not None and force_flag not in s.flags:
+            s.flags = [force_flag] + s.flags[:1]
     s.has_a2 = rng.random() < 0.4
     s.has_t1 = rng.random() < 0.4
     s.has_c1 = rng.random() < 0.3
@@ -678,9 +723,9 @@ def gen_simple(rng, s, loopvar=None):
     return [A('print')] + [rng.choice([V(x) for x in s.sizes + s.flags] + [gen_expr(rng, s, 1, loopvar)]) for _ in range(rng.randint(1, 3))]
 
 
-def gen_call(rng, s, g, memo):
+def gen_call(rng, s, g, memo, reuse_p=0.75):
     """a call to unit g from unit s"""
-    if g.name in memo and rng.random() < 0.75:
+    if g.name in memo and rng.random() < reuse_p:
         return memo[g.name]
     n0 = s.sizes[0]
     act = {}
@@ -702,12 +747,12 @@ def gen_call(rng, s, g, memo):
     return c
 
 
-def gen_body(rng, s, later, nst):
+def gen_body(rng, s, later, nst, memo=None, reuse_p=0.75):
     n0 = s.sizes[0]
     body = []
     if s.has_t1:
         body.append([A('assign'), V('t1'), _lit(rng.randint(0, 4))])
-    memo = {}
+    memo = {} if memo is None else memo
     for _ in range(nst):
         r = rng.random()
         if r < 0.25:
@@ -721,7 +766,7 @@ def gen_body(rng, s, later, nst):
             body.append([A('select'), V(rng.choice(s.flags)), [[[0], [gen_simple(rng, s)]], [[1, 2], [gen_simple(rng, s)]]],
                          [gen_simple(rng, s)] if rng.random() < 0.6 else []])
         elif r < 0.75 and later:
-            c = gen_call(rng, s, rng.choice(later), memo)
+            c = gen_call(rng, s, rng.choice(later), memo, reuse_p)
             if c is not None:
                 if rng.random() < 0.2:
                     body.append([A('if'), gen_cond(rng, s), [c], []])
@@ -732,22 +777,38 @@ def gen_body(rng, s, later, nst):
     return body
 
 
-def gen_tree(rng, weird_intent=False, tiny=False):
+def gen_tree(rng, weird_intent=False, tiny=False, two_roots=False, multientry=False):
     ncal = rng.choice((0, 1, 1, 2, 2, 3)) if not tiny else rng.choice((1, 2))
-    specs = [gen_spec(rng, 'kernel', True)] + [gen_spec(rng, f'sub{j + 1}', False) for j in range(ncal)]
+    if two_roots or multientry:
+        ncal = max(1, ncal)
+    specs = [gen_spec(rng, 'kernel', True)] + \
+        [gen_spec(rng, f'sub{j + 1}', False, force_flag='k1' if (multientry and j == 0) else None) for j in range(ncal)]
+    nroots = 1
+    if two_roots:
+        # a second driver with the signature of the first one (the input sets of a request fit both); it shares call statements
+        # with the first, so that the call sites of a callee agree
+        import copy
+        k2 = copy.copy(specs[0])
+        k2.name = 'kernel2'
+        specs.insert(1, k2)
+        nroots = 2
+    shared_memo = {}
     if tiny and rng.random() < 0.5:
         g = specs[-1]
         g.sizes, g.flags, g.has_a2, g.has_t1, g.has_c1 = [], [rng.choice(FLAG_POOL)], False, False, False
         g.args = list(g.flags)
     us = []
     for j, s in enumerate(specs):
-        later = [g for g in specs[j + 1:] if g.sizes]
+        later = [g for g in specs[max(j + 1, nroots):] if g.sizes]
         if not s.sizes:
             # a unit whose only declared variable is one integer dummy
             us.append([A('unit'), A(s.name), [A(s.flags[0])], [_decl(s.flags[0], intent='in')], [[A('print'), V(s.flags[0])]]])
             continue
-        body = gen_body(rng, s, later, rng.randint(2, 4) if j else rng.randint(3, 6))
-        tinies = [g for g in specs[j + 1:] if not g.sizes]
+        if two_roots and j < nroots:
+            body = gen_body(rng, s, later, rng.randint(3, 5), memo=shared_memo, reuse_p=1.0)
+        else:
+            body = gen_body(rng, s, later, rng.randint(2, 4) if j else rng.randint(3, 6))
+        tinies = [g for g in specs[max(j + 1, nroots):] if not g.sizes]
         for g in tinies:
             if rng.random() < 0.7:
                 body.append([A('callsub'), A(g.name), V(rng.choice(s.flags + s.sizes))])
@@ -802,19 +863,61 @@ def gen_cfg(rng, prog, order, mode):
             entry = [g]
             gu = unit_of(prog, g)
             cand = [str(d[1]) for d in gu[3] if str(d[1]) in [str(a) for a in gu[2]] and not d[4] and str(d[1]) != 'r1']
+    elif mode == 'tworoots':
+        entry = ['kernel', 'kernel2'] if rng.random() < 0.25 else None
+    elif mode == 'multientry':
+        entry = ['kernel', 'sub1']
+        cand = [x for x in cand if x in ('k1', 'k2')]
     elif rng.random() < 0.12:
         entry = ['kernel']
     keys = rng.sample(cand, rng.randint(1, min(3, len(cand))))
+    if mode == 'multientry' and 'k1' not in keys:
+        keys = ['k1'] + keys[:1]
     dic = []
     for k in keys:
-        v = rng.randint(1, 5) if k in ('n', 'm', 'nn', 'ns', 'mm') else rng.choice((0, 1, 1, 2, 3, -1))
+        for _ in range(4):       # distinct values where possible: a value handed to the wrong dummy must show
+            v = rng.randint(1, 5) if k in ('n', 'm', 'nn', 'ns', 'mm') else rng.choice((0, 1, 1, 2, 3, -1))
+            if all(v != w for _, w in dic):
+                break
         dic.append((k, v))
     if mode == 'case' and dic:
         j = rng.randrange(len(dic))
         dic[j] = (dic[j][0].upper(), dic[j][1])
     if rng.random() < 0.1:
         dic.insert(rng.randint(0, len(dic)), ('zz', 7))
-    return Cfg(dic, rng.random() < 0.5, entry, 'errorstop' if rng.random() < 0.2 else 'default', order)
+    return Cfg(dic, rng.random() < 0.5, entry, 'errorstop' if rng.random() < 0.2 else 'default', order,
+               roots=['kernel', 'kernel2'] if mode == 'tworoots' else None)
+
+
+def literalise_calls(rng, prog, callee, dic):
+    """calls to an entry point that is itself called from the tree must not pass bare key variables (the transformation removes
+    those actuals, an entry point keeps its dummies: class param-inconsistent-calls); they pass literals instead — the key's value
+    (matching) or another one (the check in front of the called entry point has to fire)"""
+    keys = {k.lower(): v for k, v in dic}
+    off = rng.choice((0, 1, 1, 2))
+
+    def fs(stmts):
+        out = []
+        for s in stmts:
+            if h(s) == 'callsub' and str(s[1]) == callee:
+                s = s[:2] + [fir.ilit(keys[str(a[1])] + off) if h(a) == 'v' and str(a[1]) in keys else a for a in s[2:]]
+            out.append(s)
+        return out
+    g = unit_of(prog, callee)
+    # the dummy that shares its name with a key gets a literal in any case
+    pos = [j for j, a in enumerate(g[2]) if str(a) in keys]
+
+    def fs2(stmts):
+        out = []
+        for s in fs(stmts):
+            if h(s) == 'callsub' and str(s[1]) == callee:
+                s = list(s)
+                for j in pos:
+                    if j + 2 < len(s) and h(s[j + 2]) not in ('i', 'neg'):
+                        s[j + 2] = fir.ilit(keys[str(g[2][j])] + off)
+            out.append(s)
+        return out
+    return fir.canon(fir.map_program(prog, fs=fs2))
 
 
 SHARED_CFG = dict(max_stmts=12, max_depth=2, n_callees=(1, 2), symbolic_prob=0.9, callee_stmts=6,
@@ -824,14 +927,16 @@ SHARED_CFG = dict(max_stmts=12, max_depth=2, n_callees=(1, 2), symbolic_prob=0.9
 class C39(Prop):
     id = 'C39'
     title = 'Parametrisation preserves behaviour for matching inputs'
-    model_modules = ['LokiModel.C39.Model', 'LokiModel.C39.Enc']
+    model_modules = ['LokiModel.C39.Model', 'LokiModel.C39.Enc', 'LokiModel.C39.Entry']
     props_module = 'LokiModel.Props.C39'
     findings_module = 'LokiModel.Findings.C39'
     driver = 'Drivers/C39.lean'
-    theorems = ['param_sound_partial', 'param_invariant', 'inlineParams_single', 'guard_fires', 'guard_passes']
+    theorems = ['param_sound_partial', 'param_invariant', 'inlineParams_single', 'guard_fires', 'guard_passes', 'entry_points_guarded']
     design_ref = 'DESIGN.md 4.F C39'
     level = 'proof'
-    level_text = ('Proved at full strength (all programs, states, fuel): guard_fires / guard_passes (the entry-point guard aborts first with '
+    level_text = ('entry_points_guarded: in the model every entry point of the processing order (several drivers / entry_points) carries a '
+                  'guard for every parametrised dummy it declares (PARAMETER mode).  '
+                  'Proved at full strength (all programs, states, fuel): guard_fires / guard_passes (the entry-point guard aborts first with '
                   'only its own report for a non-matching value, is transparent for the matching one); param_invariant (statements that '
                   'do not write the parametrised variable keep it at its value).  param_sound_partial: in a state where the variable '
                   'holds the fixed value, the replace_by_value body rewrite (substitution of the literal) leaves the execution of a '
@@ -846,7 +951,9 @@ class C39(Prop):
     technique = 'Lean 4 theorems about a hand-written model of the transformation on FIR programs + correspondence with the real code'
     rule = ('call trees of 1-4 units with integer size and flag dummies passed down under other names (own generator) plus programs of '
             'the shared FIR generator; dictionaries over 1-3 dummies (all positions), replace_by_value on/off, default abort / error-stop '
-            'callback, entry point = driver / named routine, key case variation; 2 matching + 1-2 non-matching input sets each; a case '
+            'callback, entry point = driver / named routine / TWO drivers with one signature / driver + a called entry point sharing a key '
+            'name, key case variation; every entry point is run on matching and non-matching inputs; every third case the same '
+            'transformation object is applied to a second Scheduler (must give the same program); 2 matching + 1-2 non-matching input sets each; a case '
             'is non-trivial when the tree has at least one callee')
     trusted_base = ['harness/fir.py (printer, exporter from Loki IR, reference interpreter)', 'gfortran 12.2 (thorough tier)']
     assumptions = ['the parametrised variables are never written in the tree (precondition; cases violating it are skipped by the oracle)',
@@ -859,15 +966,20 @@ class C39(Prop):
 
     # ---- generation
     def gen(self, rng, tier):
-        n_tree = {'quick': 28, 'thorough': 260, 'search': 100}.get(tier, 36)
+        n_tree = {'quick': 30, 'thorough': 260, 'search': 100}.get(tier, 36)
         for j in range(n_tree):
-            mode = ('plain', 'plain', 'plain', 'plain', 'subentry', 'case', 'intent', 'tiny')[j % 8]
+            mode = ('plain', 'tworoots', 'plain', 'multientry', 'subentry', 'case', 'intent', 'tiny', 'plain', 'plain')[j % 10]
             for _ in range(6):
-                prog, _ = gen_tree(rng, weird_intent=(mode == 'intent'), tiny=(mode == 'tiny'))
-                order = scheduler_order(prog)
+                prog, _ = gen_tree(rng, weird_intent=(mode == 'intent'), tiny=(mode == 'tiny'), two_roots=(mode == 'tworoots'),
+                                   multientry=(mode == 'multientry'))
+                order = scheduler_order(prog, ['kernel', 'kernel2'] if mode == 'tworoots' else None)
                 if not unprocessed_caller(Cfg([], False, None, 'default', order), prog):
                     break
             cfg = gen_cfg(rng, prog, order, mode)
+            if mode == 'multientry':
+                prog = literalise_calls(rng, prog, 'sub1', cfg.dic)
+            if mode in ('multientry', 'tworoots') and cfg.rbv and K_PRINT in classes_of(cfg, prog):
+                cfg.rbv = False         # keep these cases outside the PRINT class, which would hide what they are for
             inputs = gen_tree_inputs(rng, prog, cfg.dic if cfg.entry is None or 'kernel' in cfg.entry else [], 2, 1 if tier == 'quick' else 2)
             gf = tier == 'thorough' and j % 3 == 0
             yield Case([A('param'), prog, cfg.wire(), inputs, A('gf' if gf else 'nogf')], stream='tree-' + mode,
@@ -928,25 +1040,42 @@ class C39(Prop):
             return [Failure(f'the transformation (or printing / exporting its result) raised {e}', cls)]
         except fir.Unsupported as e:
             return [Failure(f'the transformed IR is outside FIR: {e.kind}', cls)]
+        if _reuse.get((dumps(prog), dumps(cfg.wire()))) is False:
+            return [Failure('the same ParametriseTransformation object applied to a second Scheduler over the same sources gives a '
+                            'different program (state kept in the transformation object)', cls)]
         gp = guarded(prog, cfg)
         tpx = inline_params_in_dummy_dims(tp)
         runs = []
-        for inp in inputs:
-            a = fir.interp(gp, inp)
-            if a[0] != 'ok':
-                continue
-            tin = rename_inputs(inp, tp, prog)
-            b = rename_result(fir.interp(tpx, tin))
-            if expect_abort(prog, cfg, inp):
-                # the guard of the main unit fires: the report of the guard is the whole output (final values are not observable)
-                if b[0] != 'ok' or a[2] != b[2]:
-                    return [Failure(f'non-matching input: the guard of the main unit does not fire first: output {b[2] if b[0] == "ok" else b} '
-                                    f'instead of {a[2]}', cls)]
-                continue
-            d = fir.compare_results(a, b, undef_wild=False)
-            if d:
-                return [Failure(f'transformed program behaves differently from the guarded original (interpreter): {d}', cls)]
-            runs.append((inp, tin))
+        main = str(prog[1])
+        for root in [main] + [r for r in roots_of(cfg, prog) if r != main]:
+            if root != main and not same_signature(prog, main, root):
+                continue        # the input sets of the request fit the main unit only
+            prog_r, gp_r, tp_r, tpx_r = (with_main(x, root) for x in (prog, gp, tp, tpx))
+            for inp in inputs:
+                a = fir.interp(gp_r, inp)
+                tin = rename_inputs(inp, tp_r, prog_r)
+                if a[0] != 'ok':
+                    # the check in front of an entry point that is a CALLED unit fires (`exit` in a called unit is the error
+                    # "exit/cycle outside loop"): the transformed program has to abort as well
+                    if a[0] == 'error' and 'exit/cycle outside loop' in str(a[1]) and fir.interp(prog_r, inp)[0] == 'ok':
+                        b = fir.interp(tpx_r, tin)
+                        if b[0] == 'ok':
+                            return [Failure(f'non-matching value reaches an entry point below {root}: the documented check aborts, '
+                                            f'the transformed program runs on (output {b[2]})', cls)]
+                    continue
+                b = rename_result(fir.interp(tpx_r, tin))
+                if expect_abort(prog_r, cfg, inp):
+                    # the guard of this entry point fires: its report is the whole output (final values are not observable)
+                    if b[0] != 'ok' or a[2] != b[2]:
+                        return [Failure(f'non-matching input: the guard of entry point {root} does not fire first: output '
+                                        f'{b[2] if b[0] == "ok" else b} instead of {a[2]}', cls)]
+                    continue
+                d = fir.compare_results(a, b, undef_wild=False)
+                if d:
+                    return [Failure(f'transformed program (entry point {root}) behaves differently from the guarded original '
+                                    f'(interpreter): {d}', cls)]
+                if root == main:
+                    runs.append((inp, tin))
         if flag == 'gf':
             text0, text1 = text
             # printing problems of the untransformed program are C01/C06 matters: only text that was fine before counts
